@@ -52,3 +52,32 @@ package engine
 // Diamond operators ask the store for the facts meeting the window: meeting is sharing an instant.
 //@ lemma overlapWitness(i ast.Interval, w ast.Interval):
 //@   wfIv(i) && wfIv(w) && lo(i) <= hi(i) && lo(w) <= hi(w) ==> ((lo(i) <= hi(w) && lo(w) <= hi(i)) <==> (exists t int64 :: covers(i, t) && covers(w, t)))
+
+// ---- C01 / C17: the semi-naive loop -----------------------------------------------------------------------
+// State invariant named by the property: whenever delta rules are evaluated, every fact of the delta is already in
+// the store (the other premises of a delta rule are matched against the store).
+//@ spec func deltaInStore(e *engine) bool = forall a ast.Atom :: a in factstore.view(e.deltaStore) ==> a in factstore.view(e.store)
+//@ spec func ewf(e *engine) bool = e.store != nil && e.deltaStore != nil && e.programInfo != nil && e.options.predicateAllowList != nil
+
+// mergeDelta adds every delta fact to the store (merge-predicate replacement aside). Contract ASSUMED: its body
+// works through GetAllFacts callbacks and is not verified in this revision.
+//@ func (e *engine) mergeDelta()
+//@   trusted
+//@   requires e != nil
+//@   modifies factstore.view(e.store)
+//@   ensures err == nil ==> deltaInStore(e)
+
+// One evaluation step of a clause reads the stores (external predicates aside). ASSUMED.
+//@ func (e *engine) oneStepEvalClause(clause)
+//@   trusted
+//@   requires e != nil
+//@   modifies nothing
+
+//@ func makeDeltaRules(decls, predToRules)
+//@   trusted
+//@   modifies nothing
+
+//@ func (e *engine) eval()
+//@   requires e != nil && ewf(e)
+//@   opt nosafety
+//@   loop 5 invariant deltaInStore(e)
